@@ -361,8 +361,10 @@ class ErrorHandler:
                 if 'index_in_tag_end' in error_object:
                     index_in_tag_end = start + error_object['index_in_tag_end']
                 new_end = index_in_tag_end
+            # Issues can pass through here more than once (e.g. HedValidator.validate); add the location text once.
+            if 'char_index' not in error_object:
+                error_object['message'] += f"  Problem spans string indexes: {new_start}, {new_end}"
             error_object['char_index'], error_object['char_index_end'] = new_start, new_end
-            error_object['message'] += f"  Problem spans string indexes: {new_start}, {new_end}"
 
     @hed_error("Unknown")
     def val_error_unknown(*args, **kwargs):
